@@ -132,3 +132,18 @@ def gen_k9(rng, n):
         out.append([9, mode, c, [b, F(seeds[0])], [[w, F(s)] for w, s in zip(ws, seeds[1:])], rows, int(lower)])
         meta.append({"mode": mode, "conn": c, "rows": nrows})
     return out, meta
+
+
+def gen_k10(rng, n):
+    """val_clamp on tensors whose entries lie on both sides of [0,1] at once (tag 10)"""
+    out = []
+    G4 = [F(i, 4) for i in range(-32, 33)]
+    for _ in range(n):
+        k = rng.choice([1, 2, 2, 3, 4, 6])
+        xs = []
+        for _j in range(k):
+            c = rng.random()
+            x = rng.choice(G8) if c < 0.3 else rng.choice([F(5, 4), F(2), F(9, 8), F(8)]) if c < 0.55 else rng.choice([F(-1, 4), F(-2), F(-1, 8), F(-8)]) if c < 0.8 else rng.choice(G4)
+            xs.append([x, F(rng.choice([0, 1, 1, -1, 2]))])
+        out.append([10, xs])
+    return out
